@@ -145,7 +145,7 @@ EffectMatches(ev, o, pre, post) ==
                  \A p \in (DOMAIN pre.colls[c].props \cup DOMAIN post.colls[c].props
                           \cup (IF c = ev.c THEN touched ELSE {})) :
                     IF c = ev.c /\ p \in touched
-                      THEN ins[LastIns(p)].set =>
+                      THEN (ins[LastIns(p)].set /\ ~ins[LastIns(p)].free) =>
                               /\ p \in DOMAIN post.colls[c].props
                               /\ post.colls[c].props[p] = ins[LastIns(p)].v
                       ELSE /\ p \in DOMAIN pre.colls[c].props /\ p \in DOMAIN post.colls[c].props
